@@ -46,6 +46,17 @@ class IntArr(Model):
         return SInt(z3.Select(st.heap[self.name], to_int(i)))
 
     def m_getitem(self, ex, st, idx, node):
+        if isinstance(idx, Table2):
+            # numpy gather a[T]: the table of a[T[r, c]] (index bounds become obligations when a cell is read)
+            arr, length, tbl, name = st.heap[self.name], self.length, idx, self.name
+
+            def cell(r, c):
+                return z3.Select(arr, tbl.fn(r, c + tbl.col0) if tbl.col0 else tbl.fn(r, c))
+            t = Table2(cell, tbl.nrows, tbl.cols)
+            if length is not None:
+                t.bounds = lambda r, c: z3.And(tbl.fn(r, c + tbl.col0) >= 0, tbl.fn(r, c + tbl.col0) < to_int(length))
+                t.bounds_name = f'index-in-bounds:{name}[gather]'
+            return t
         if isinstance(idx, (tuple, slice)):
             raise NotInSubset('unsupported index into int array')
         if self.length is not None:
@@ -74,26 +85,36 @@ class IntArr(Model):
 class Table2(Model):
     """read-only 2-D integer table given by an uninterpreted function F(row, col); ``t[:, :w]`` iterates rows"""
 
-    def __init__(self, fn, nrows, ncols, cols=None):
-        self.fn, self.nrows, self.ncols, self.cols = fn, nrows, ncols, cols if cols is not None else ncols
+    def __init__(self, fn, nrows, ncols, cols=None, col0=0):
+        self.fn, self.nrows, self.ncols, self.cols, self.col0 = fn, nrows, ncols, cols if cols is not None else ncols, col0
+        self.bounds = None
 
     def cell(self, r, c):
-        return SInt(self.fn(to_int(r), to_int(c)))
+        return SInt(self.fn(to_int(r), to_int(c) + self.col0))
+
+    def row(self, ex, st, k, node):
+        if self.bounds is not None:
+            for c in range(self.cols):
+                ex.prove(st, self.bounds_name, self.bounds(to_int(k), z3.IntVal(c + self.col0)), node)
+        return tuple(self.cell(k, c) for c in range(self.cols))
 
     def m_getitem(self, ex, st, idx, node):
         if isinstance(idx, tuple) and len(idx) == 2 and idx[0] == slice(None, None, None) and isinstance(idx[1], slice):
             s = idx[1]
-            if s.start is None and s.step is None and _conc_int(s.stop) is not None and 0 < s.stop <= self.ncols:
-                return Table2(self.fn, self.nrows, self.ncols, s.stop)
+            a = 0 if s.start is None else _conc_int(s.start)
+            if a is not None and s.step is None and _conc_int(s.stop) is not None and 0 <= a < s.stop <= self.cols:
+                t = Table2(self.fn, self.nrows, self.ncols, s.stop - a, self.col0 + a)
+                t.bounds, t.bounds_name = self.bounds, getattr(self, 'bounds_name', None)
+                return t
         if not isinstance(idx, (tuple, slice)):
             # a row
             i = to_int(idx)
             ex.prove(st, 'index-in-bounds:ops row', z3.And(i >= 0, i < to_int(self.nrows)), node)
-            return tuple(self.cell(idx, c) for c in range(self.cols))
+            return self.row(ex, st, idx, node)
         raise NotInSubset(f'unsupported index {idx!r} into ops table')
 
     def m_iter(self, ex, st, node):
-        return SymIter(self.nrows, lambda ex_, st_, k: tuple(self.cell(k, c) for c in range(self.cols)))
+        return SymIter(self.nrows, lambda ex_, st_, k: self.row(ex_, st_, k, node))
 
     def m_len(self, ex, st, node):
         return self.nrows
